@@ -44,7 +44,7 @@ def _specific(ctx: CheckContext, p: Program, r: Resolver):
     # concatenation holds every member of both operands: the result is fed from the member maps of BOTH operands
     addf = sc.methods.get("__add__")
     if addf is None:
-        ctx.error("StreamCollection.__add__ missing")
+        ctx.abstain("WHO-CONCAT", "StreamCollection.__add__ missing")
     else:
         other = addf.pos_params[1] if len(addf.pos_params) > 1 else None
         fed = set()
@@ -83,7 +83,7 @@ def _specific(ctx: CheckContext, p: Program, r: Resolver):
     for nm in ("__len__", "__contains__"):
         f = sc.methods.get(nm)
         if f is None:
-            ctx.error(f"StreamCollection.{nm} missing")
+            ctx.abstain("WHO-LEN", f"StreamCollection.{nm} missing")
             continue
         reads = classflow.fields_read(f.node, "self")
         ok = maps[0] in reads and not (set(pat.caches) & reads)
